@@ -18,6 +18,7 @@ CHECKS = {
     'C21': ('vlib.chk_scope', 'C21'),
     'C22': ('vlib.chk_tsolver', 'C22'),
     'C23': ('vlib.chk_repro', 'C23'),
+    'C24': ('vlib.chk_sched', 'C24'),
     'C25': ('vlib.chk_stop', 'C25'),
     'C29': ('vlib.chk_misc', 'C29'), 'C30': ('vlib.chk_misc', 'C30'),
 }
